@@ -120,7 +120,9 @@ pub fn run_fast_case(ctx: &Ctx, c: &Case, verbose: bool) -> u64 {
         rig::poke(&mut e, *a, b);
     }
     let image = image_of(c);
-    if e.load_tape(Tape::Tap(VAsset::new(image))).is_err() {
+    // the tape file arrives through an asset returning short reads of a size that rotates with the case
+    let chunk = [0usize, 1, 2, 3, 7, 127, 128, 129][(image.len() + c.requests.len() + c.requests.first().map_or(0, |r| r.de as usize + r.ix as usize)) % 8];
+    if e.load_tape(Tape::Tap(VAsset::new(image).chunked(chunk))).is_err() {
         ctx.violation("C10:load_tape-error", "load_tape failed for a well-formed TAP", case_json(c, "fast"));
         return 0;
     }
